@@ -29,5 +29,12 @@ func (h *bcryptHasher) GenerateHash(password string) (string, error) {
 }
 
 func (h *bcryptHasher) CompareHashAndPassword(hashedPassword, password string) error {
+	// bcrypt only looks at the first 72 bytes: refuse longer passwords here
+	// just like GenerateHash does, otherwise any extension of a 72 byte
+	// password verifies against its hash.
+	if len(password) > 72 {
+		return bcrypt.ErrPasswordTooLong
+	}
+
 	return bcrypt.CompareHashAndPassword([]byte(hashedPassword), []byte(password))
 }
